@@ -354,6 +354,10 @@ func (mgr *GCMgr) gc(bkt *Bucket, startChunkID, endChunkID int, merge bool) {
 
 		if gc.Src != gc.Dst {
 			bkt.datas.chunks[gc.Src].Clear()
+		} else if err = dstchunk.dropStaleTail(); err != nil {
+			gc.Err = err
+			logger.Errorf("gc failed: %s", err.Error())
+			return
 		}
 		if gc.Src+1 >= bkt.NextGCChunk {
 			bkt.NextGCChunk = gc.Src + 1
